@@ -385,7 +385,13 @@ class Interp:
                 self.raise_(name, st, "raise %s" % name)
             return fl
         if isinstance(st, (ast.FunctionDef, ast.ClassDef)):
-            s.env[st.name] = AV(["func"])
+            nested = self.cur_func.nested.get(st.name) if (self.cur_func is not None and isinstance(st, ast.FunctionDef)) else None
+            if isinstance(nested, Func) and nested.node is st:
+                # a local function: calling it (directly, or through reduce/map) analyses its body; the enclosing function's
+                # variables it reads are unknown there (opaque), which can only add effects
+                s.env[st.name] = AV(["func"], const=("func", nested))
+            else:
+                s.env[st.name] = AV(["func"])
             fl.next = [s]
             return fl
         if isinstance(st, (ast.Import, ast.ImportFrom)):
